@@ -975,10 +975,20 @@ func checkResultsPrivate(p *an.Prog, r *an.Run) {
 								if b, ok := t.Call.Value.(*ssa.Builtin); ok && an.Ident(b.Name()) == "append" {
 									walk(t.Call.Args[0])
 								}
-							case *ssa.FieldAddr, *ssa.IndexAddr:
+							case *ssa.FieldAddr:
 								if fromRecv(t) {
 									bad = append(bad, an.FuncName(m)+" returns at "+p.Pos(ret.Pos())+" the address of the driver's own storage")
+									return
 								}
+								walk(t.X) // &rec.f where rec is a pointer kept in the driver's tables
+							case *ssa.IndexAddr:
+								if fromRecv(t) {
+									bad = append(bad, an.FuncName(m)+" returns at "+p.Pos(ret.Pos())+" the address of the driver's own storage")
+									return
+								}
+								walk(t.X)
+							case *ssa.Extract:
+								walk(t.Tuple)
 							case *ssa.Lookup:
 								walk(t.X)
 							case *ssa.UnOp:
